@@ -66,6 +66,11 @@ CHECKS = {
         "text": "Per pair an equivalence obligation over regenerated data (pairs the checker cannot discharge are listed as differential-only in evidence) plus parse_all agreement on sentences from either side, mutants and exhaustive low code points.",
         "design_ref": "DESIGN.md section 8 / C19",
     },
+    "C16": {
+        "technique": "Lean 4 proof over all operation sequences and limits (invariant by induction; refinement to a time-stamped LRU specification; history specification for lookups) + step-by-step differential of the real ParseCache against the model (exhaustive to a depth, random beyond)",
+        "text": "Theorems: size bound, lookups return the most recently stored value or a miss and never another key's value, evicted entry has the strictly oldest last use, counters exact, clear empties every cache. Tied to the code by comparing the observable state after every step of exhaustive and random operation sequences.",
+        "design_ref": "DESIGN.md section 8 / C16",
+    },
 }
 
 NOT_YET = "check not built yet in this round (work in progress; see DESIGN.md section 8 for the plan)"
